@@ -51,8 +51,9 @@ Names == <<
     [s |-> "NONE", go |-> "None"], [s |-> "RED", go |-> "Red"], [s |-> "dark_blue", go |-> "DarkBlue"],
     [s |-> "UNDEFINED", go |-> "Undefined"], [s |-> "FIRST", go |-> "First"], [s |-> "second_value", go |-> "SecondValue"],
     [s |-> "BIG", go |-> "Big"],
-    [s |-> "unary", go |-> "Unary"], [s |-> "nothing", go |-> "Nothing"], [s |-> "one", go |-> "One"], [s |-> "chan", go |-> "Chan"],
-    [s |-> "recv", go |-> "Recv"], [s |-> "send", go |-> "Send"], [s |-> "msg", go |-> "Msg"], [s |-> "hello", go |-> "Hello"] >>
+    [s |-> "do_unary", go |-> "DoUnary"], [s |-> "nothing", go |-> "Nothing"], [s |-> "one", go |-> "One"], [s |-> "chan", go |-> "Chan"],
+    [s |-> "recv", go |-> "Recv"], [s |-> "send", go |-> "Send"], [s |-> "getMsg", go |-> "Getmsg"], [s |-> "say_hello", go |-> "SayHello"],
+    [s |-> "open_sub", go |-> "OpenSub"] >>
 FieldNamePool == 14       \* the first 14 entries are used for generated field names
 GoName(s) == LET S == {i \in DOMAIN Names : Names[i].s = s} IN IF S = {} THEN "?" ELSE Names[CHOOSE i \in S : TRUE].go
 
@@ -91,15 +92,16 @@ EitherTypes == <<L(TAny), L(TMsg)>>       \* the statement of C14 lets the compi
 TagPool == <<"1", "2", "7", "255", "256", "1000", "65535", "3", "5", "10", "300">>
 
 SvcDef(imp) == Service("Svc", FALSE, <<
-    Mth("unary", IOFields(<<F("a", B("int32"), "1"), F("type", B("string"), "2")>>, FALSE), NoChan, IOFields(<<F("c", B("int64"), "1")>>, FALSE), FALSE),
+    \* (method names in snake case and mixed case: the name on the wire is the schema's, the Go identifier is derived)
+    Mth("do_unary", IOFields(<<F("a", B("int32"), "1"), F("type", B("string"), "2")>>, FALSE), NoChan, IOFields(<<F("c", B("int64"), "1")>>, FALSE), FALSE),
     Mth("nothing", IOFields(<<>>, FALSE), NoChan, NoIO, FALSE),
     Mth("one", IOType(Ref("Sub")), NoChan, NoIO, TRUE),
-    Mth("sub", IOFields(<<F("id", B("bin128"), "1")>>, FALSE), NoChan, IOType(Ref("Svc2")), FALSE),
+    Mth("open_sub", IOFields(<<F("id", B("bin128"), "1")>>, FALSE), NoChan, IOType(Ref("Svc2")), FALSE),
     Mth("chan", IOType(Ref("Sub")), ChInOut(Ref("Sub"), IF imp = "" THEN Ref("Sub") ELSE Imp(imp, "Ext")), IOType(Ref("Sub")), FALSE),
     Mth("recv", IOType(Ref("Sub")), ChIn(Ref("Sub")), NoIO, FALSE),
     Mth("send", IOFields(<<F("b", L(B("string")), "1")>>, TRUE), ChOut(Ref("Sub")), IOFields(<<F("ok", B("bool"), "1"), F("p", Ref("P"), "2")>>, TRUE), FALSE),
-    Mth("msg", IOType(Ref("Sub")), NoChan, IOType(IF imp = "" THEN Ref("Sub") ELSE Imp(imp, "Ext")), FALSE)>>)
-Svc2Def == Service("Svc2", TRUE, <<Mth("hello", IOFields(<<F("s", B("string"), "1")>>, FALSE), NoChan, IOFields(<<F("s", B("string"), "1")>>, FALSE), FALSE)>>)
+    Mth("getMsg", IOType(Ref("Sub")), NoChan, IOType(IF imp = "" THEN Ref("Sub") ELSE Imp(imp, "Ext")), FALSE)>>)
+Svc2Def == Service("Svc2", TRUE, <<Mth("say_hello", IOFields(<<F("s", B("string"), "1")>>, FALSE), NoChan, IOFields(<<F("s", B("string"), "1")>>, FALSE), FALSE)>>)
 
 RecDef(fields) == Message("Rec", fields, TRUE)
 
